@@ -248,7 +248,7 @@ func genTemplateProgram(t *rapid.T, allowErr bool) *tplProg {
 	}
 	w := func(format string, args ...interface{}) { fmt.Fprintf(&tp.src, format, args...) }
 	for b := 1; b <= n; b++ {
-		kind := []string{"strconst", "strconst", "closure", "closure", "module", "module", "stdlib", "mutinput", "mutinput", "literals", "hostmod", "loop", "mutimm", "mutimm", "format", "format", "appendin", "appendin"}[rapid.IntRange(0, 17).Draw(t, "block")]
+		kind := []string{"strconst", "strconst", "closure", "closure", "module", "module", "stdlib", "mutinput", "mutinput", "literals", "hostmod", "loop", "mutimm", "mutimm", "format", "format", "appendin", "appendin", "muterr", "muterr"}[rapid.IntRange(0, 19).Draw(t, "block")]
 		if singleFile && kind == "module" {
 			kind = "closure"
 		}
@@ -307,6 +307,12 @@ func genTemplateProgram(t *rapid.T, allowErr bool) *tplProg {
 			// immutability is shallow, the script may write into the nested
 			// map / array, and every clone must see only its own copy
 			w("in4.lim.n += in0 + %[2]d\nin4.tags[0] = in1\nin4.tags = in4.tags\nin5[1][0] += 1\nin5[1] = in5[1]\nmi%[1]d := [in4.lim.n, in4.tags, in5[1], is_immutable_map(in4), is_immutable_array(in5)]\n", b, rapid.IntRange(0, 3).Draw(t, "tplImmInc"))
+		case "muterr":
+			// in7 is an error value wrapping a mutable map; in8 an array
+			// holding one: an error is a container like any other, the script
+			// may write into the payload through .value and every clone must
+			// see only its own copy
+			w("in7.value.n += in0 + %[2]d\nin7.value.tags[0] = in1\nin8[0].value[0] += 1\nin8 = append(in8, error([in0]))\nme%[1]d := [in7.value.n, in7.value.tags, in8[0].value, is_error(in7), len(in8)]\n", b, rapid.IntRange(0, 3).Draw(t, "tplErrInc"))
 		case "literals":
 			w("l%[1]d := {a: [1, 2, {b: in0}], s: \"k\", f: 1.5, u: undefined}\nl%[1]d.a[2].b += %[2]d\nl%[1]d.a = append(l%[1]d.a, in1)\nv%[1]d := [in0, [in1], {}, 'c', true, immutable([in0])]\n", b, rapid.IntRange(1, 9).Draw(t, "tplInc"))
 		case "hostmod":
@@ -379,6 +385,11 @@ func tplInputs(t *rapid.T, ill bool) map[string]*lang.Val {
 	out["in6"] = &lang.Val{T: "array", Share: 9}
 	out["in5"] = &lang.Val{T: "imm-array", Share: 7, Kids: []*lang.Val{vInt(1),
 		{T: "array", Share: 8, Kids: []*lang.Val{vInt(int64(rapid.IntRange(0, 5).Draw(t, "in5n")))}}}}
+	out["in7"] = &lang.Val{T: "error", Share: 10, Kids: []*lang.Val{
+		{T: "map", Share: 11, Keys: []string{"n", "tags"}, Kids: []*lang.Val{vInt(int64(rapid.IntRange(0, 5).Draw(t, "in7n"))),
+			{T: "array", Share: 12, Kids: []*lang.Val{vStr("e0")}}}}}}
+	out["in8"] = &lang.Val{T: "array", Share: 13, Kids: []*lang.Val{
+		{T: "error", Share: 14, Kids: []*lang.Val{{T: "array", Share: 15, Kids: []*lang.Val{vInt(int64(rapid.IntRange(0, 5).Draw(t, "in8n")))}}}}}}
 	if !ill {
 		return out
 	}
